@@ -505,6 +505,9 @@ var coreMix = map[string][]int{
 }
 
 func genCoreCase(rng *Rng, maxOps int, variant string) (*CoreCase, error) {
+	if variant == "gangdeep" {
+		return genGangDeep(rng, maxOps)
+	}
 	mix, ok := coreMix[variant]
 	if !ok {
 		mix = coreMix[""]
@@ -630,6 +633,168 @@ func genCoreCase(rng *Rng, maxOps int, variant string) (*CoreCase, error) {
 	}
 	// drain: a few scheduling cycles and confirmations at the end make the histories end in richer states
 	for i := 0; i < 3; i++ {
+		emit(CoreOp{Kind: "sched"})
+	}
+	return c, nil
+}
+
+// genGangDeep builds histories that reach the deep states of gang scheduling on purpose: a gang application
+// with placeholders bound on nodes, real asks (smaller than or equal to the placeholders) whose replacement is
+// pushed to another node by explicit predicate denials in half of the cases, and then a burst of disturbances
+// while swaps are in flight (node removal, drain, application removal, shim releases with every termination
+// type, timers, confirmations delivered late or twice, resource updates), interleaved with scheduling cycles.
+func genGangDeep(rng *Rng, maxOps int) (*CoreCase, error) {
+	ntypes := 1 + rng.Intn(2)
+	root := &genQueue{name: "root", parent: true, submit: "*"}
+	leaf := &genQueue{name: "q0"}
+	if rng.Chance(40) {
+		leaf.max = CoreRes{}
+		for i := 0; i < ntypes; i++ {
+			leaf.max[coreTypes[i]] = int64(20 + rng.Intn(30))
+		}
+	}
+	if rng.Chance(30) {
+		leaf.maxApps = 1 + rng.Intn(2)
+	}
+	root.children = []*genQueue{leaf, {name: "q1"}}
+	w := CoreWorld{Configs: []string{coreConfigYAML(root, false, []string{"fair", "binpacking"}[rng.Intn(2)])}, ResDelayOn: rng.Chance(30), Seed: rng.Next()}
+	c := &CoreCase{World: w}
+	d, err := newCoreDriver(&c.World)
+	if err != nil {
+		return nil, err
+	}
+	c.Init = d.observe()
+	g := &genState{r: rng, ntypes: ntypes, gangApps: map[string][]string{}, keys: map[string][]string{}, variant: "swap", leaves: []string{"root.q0", "root.q1"}}
+	var pending []CoreEvent
+	var last *CoreObs
+	emit := func(op CoreOp) {
+		c.Ops = append(c.Ops, op)
+		st := d.step(&c.Ops[len(c.Ops)-1])
+		c.Steps = append(c.Steps, st)
+		last = st.Obs
+		for _, e := range st.Events {
+			if e.Kind == "release" && (e.TType == 2 || e.TType == 3 || e.TType == 4) {
+				pending = append(pending, e)
+			}
+		}
+	}
+	nn := 2 + rng.Intn(2)
+	capv := int64(10 + rng.Intn(8))
+	for i := 0; i < nn; i++ {
+		cp := CoreRes{}
+		for t := 0; t < ntypes; t++ {
+			cp[coreTypes[t]] = capv
+		}
+		g.nextNode++
+		id := fmt.Sprintf("node-%d", g.nextNode)
+		g.nodes = append(g.nodes, id)
+		emit(CoreOp{Kind: "node_add", Node: id, Cap: cp})
+	}
+	napps := 1 + rng.Intn(2)
+	type gangInfo struct {
+		app  string
+		size CoreRes
+		phs  []string
+	}
+	var gangs []gangInfo
+	for a := 0; a < napps; a++ {
+		g.nextApp++
+		app := fmt.Sprintf("app-%d", g.nextApp)
+		g.apps = append(g.apps, app)
+		size := g.r.res(ntypes, 3, 6, false)
+		nph := 1 + rng.Intn(3)
+		total := CoreRes{}
+		for k, v := range size {
+			total[k] = v * int64(nph)
+		}
+		g.gangApps[app] = []string{"tg-a"}
+		emit(CoreOp{Kind: "app_add", App: app, Queue: "root.q0", User: []string{"u1", "u2"}[rng.Intn(2)], Groups: []string{"g1"}, PhAsk: total, Hard: rng.Chance(50)})
+		gi := gangInfo{app: app, size: size}
+		// sometimes the real asks arrive before the placeholders
+		realFirst := rng.Chance(25)
+		addReal := func() {
+			nreal := 1 + rng.Intn(nph+1)
+			for i := 0; i < nreal; i++ {
+				r := CoreRes{}
+				for k, v := range size {
+					r[k] = max(1, v-int64(rng.Intn(3)))
+				}
+				if rng.Chance(10) {
+					r[coreTypes[0]] = size[coreTypes[0]] + 1 // larger than the placeholder: must cancel it
+				}
+				emit(CoreOp{Kind: "alloc", App: app, Key: g.newKey(app), Res: r, TaskGroup: "tg-a", AgeSec: 3600, Prio: int32(rng.Intn(3))})
+			}
+		}
+		if realFirst {
+			addReal()
+		}
+		for i := 0; i < nph; i++ {
+			k := g.newKey(app)
+			gi.phs = append(gi.phs, k)
+			emit(CoreOp{Kind: "alloc", App: app, Key: k, Res: size, Ph: true, TaskGroup: "tg-a", AgeSec: 3600})
+		}
+		for i := 0; i < nph+1; i++ {
+			emit(CoreOp{Kind: "sched"})
+		}
+		if !realFirst {
+			// explicit denials push the replacement away from the placeholder's node
+			if rng.Chance(55) && last != nil {
+				for _, oa := range last.Apps {
+					if oa.ID != app {
+						continue
+					}
+					for _, al := range oa.Allocs {
+						if al.Ph {
+							for j := 1; j <= 4; j++ {
+								c.World.DenyPairs = append(c.World.DenyPairs, [2]string{fmt.Sprintf("alloc-%d", g.nextKey+j), al.Node})
+							}
+						}
+					}
+				}
+			}
+			addReal()
+		}
+		gangs = append(gangs, gi)
+	}
+	// disturbances while swaps are in flight
+	nops := 6 + rng.Intn(maxOps/2+1)
+	for i := 0; i < nops; i++ {
+		x := rng.Intn(100)
+		gi := gangs[rng.Intn(len(gangs))]
+		switch {
+		case x < 38:
+			emit(CoreOp{Kind: "sched"})
+		case x < 50:
+			emit(g.opRelease(&pending))
+		case x < 58:
+			if n := g.pick(g.nodes); n != "" {
+				emit(CoreOp{Kind: "node_remove", Node: n})
+			}
+		case x < 62:
+			if n := g.pick(g.nodes); n != "" {
+				emit(CoreOp{Kind: []string{"node_drain", "node_undrain"}[rng.Intn(2)], Node: n})
+			}
+		case x < 68:
+			emit(CoreOp{Kind: "release", App: gi.app, Key: g.pick(gi.phs), TType: []int32{1, 1, 2, 4, 0, 3}[rng.Intn(6)]})
+		case x < 74:
+			emit(CoreOp{Kind: "fire_ph", App: gi.app})
+		case x < 80:
+			emit(CoreOp{Kind: "fire_state", App: gi.app})
+		case x < 84:
+			emit(CoreOp{Kind: "app_remove", App: gi.app})
+		case x < 90:
+			emit(g.opAsk())
+		case x < 94:
+			if len(g.keys[gi.app]) > 0 {
+				emit(CoreOp{Kind: "alloc", App: gi.app, Key: g.pick(g.keys[gi.app]), Res: g.r.res(ntypes, 1, 6, false), AgeSec: 3600})
+			}
+		case x < 97:
+			emit(g.opNodeAdd())
+		default:
+			emit(g.opBound())
+		}
+	}
+	for i := 0; i < 2; i++ {
 		emit(CoreOp{Kind: "sched"})
 	}
 	return c, nil
